@@ -225,7 +225,14 @@ def _expand_start_element(
                     op="match",
                     spec=Spec(
                         name=InternalEvents.FLOW_STARTED,
-                        arguments=element.spec.arguments,
+                        # The instance uid identifies the started flow. The flow
+                        # arguments must not be evaluated a second time here.
+                        arguments={
+                            "flow_id": element.spec.arguments["flow_id"],
+                            "flow_instance_uid": element.spec.arguments[
+                                "flow_instance_uid"
+                            ],
+                        },
                         ref=_create_ref_ast_dict_helper(flow_event_ref_uid),
                         spec_type=SpecType.EVENT,
                     ),
@@ -652,14 +659,14 @@ def _expand_activate_element(
                 )
             )
             # send StartFlow(flow_id=<flow_id>, flow_instance_uid=$_instance_<uid>)
-            match_arguments = dict(element.spec.arguments)
-            match_arguments.update(
-                {
-                    "flow_id": f"'{element.spec.name}'",
-                    "flow_instance_uid": f"'{{${instance_uid_variable_name}}}'",
-                }
-            )
-            start_arguments = dict(match_arguments)
+            # The instance uid identifies the started flow. The flow arguments must
+            # not be evaluated a second time for the match.
+            match_arguments = {
+                "flow_id": f"'{element.spec.name}'",
+                "flow_instance_uid": f"'{{${instance_uid_variable_name}}}'",
+            }
+            start_arguments = dict(element.spec.arguments)
+            start_arguments.update(match_arguments)
             start_arguments.update(
                 {
                     "activated": "True",
